@@ -54,7 +54,7 @@ def run(c):
     r = c.validate("BeaconStoreTrace", "BeaconStoreTrace.cfg", trace, timeout=3000)
     c.judge_trace(r, trace)
 
-    ntr = evs = stored = sends = 0
+    ntr = evs = stored = sends = regd = 0
     shapes = set()
     for t in vlib.split_traces(trace):
         ntr += 1
@@ -67,14 +67,19 @@ def run(c):
                     stored += 1
                     l, nbr = lt.get(e["inIf"], (-1, -1))
                     shapes.add(json.dumps(["h", cfg["pols"], e["hops"], l, e["usage"]]))
+            elif e["ev"] == "regrun":
+                for sgm in e["segs"]:
+                    evs += 1
+                    regd += 1
+                    shapes.add(json.dumps(["r", cfg["pols"], e["type"], sgm["k"] and 1]))
             elif e["ev"] == "prop":
                 for s in e["sends"]:
                     evs += 1
                     sends += 1
                     shapes.add(json.dumps(["p", cfg["pIsdLoop"], s["hops"], lt.get(s["eg"], (0, 0))[1]]))
     # vacuity guard for an only-if statement: the implementation must accept / propagate something
-    if stored == 0 or sends == 0:
-        raise vlib.Infra("vacuous run: %d beacons stored, %d propagated" % (stored, sends))
+    if stored == 0 or sends == 0 or regd == 0:
+        raise vlib.Infra("vacuous run: %d beacons stored, %d propagated, %d registered" % (stored, sends, regd))
     drift = {}
     for mm in re.finditer(r'<<"VERIF-DRIFT", \d+, "([^"]*)">>', r.out):
         drift[mm.group(1)] = drift.get(mm.group(1), 0) + 1
@@ -87,9 +92,9 @@ def run(c):
     c.cov["rule"] = ("an evaluation is one beacon handled by the real Handler/Store (judged on what the database "
                      "holds afterwards) or one (interface, beacon) pair sent by the real Propagator; %d handle "
                      "cases are TLC's complete table, the rest seeded; non-trivial = the beacon was stored or "
-                     "sent (the antecedent of the only-if clauses): %d stored, %d sent; distinct = distinct "
+                     "sent / registered (the antecedent of the only-if clauses): %d stored, %d sent, %d handed to the registrar; distinct = distinct "
                      "(policies, ISD-AS sequence, link type, usages) resp. (loop switch, sequence, neighbour)"
-                     % (ncases, stored, sends))
+                     % (ncases, stored, sends, regd))
     c.sample_trace(trace, nevents=6)
     c.assumptions += [
         "signatures are real ECDSA signatures over the real segment encoding; a 'bad' entry is signed with another key",
